@@ -183,7 +183,57 @@ pub fn check_decoding(w: &World, d: &Dep, mi: usize, obs: &mut Obs) -> u64 {
         || "field=balances".into(),
         || format!("market {mi}: balances program=({},{}) sdk=({},{})", prog.state().long_token_balance_raw(), prog.state().short_token_balance_raw(), sdk.state.other.long_token_balance, sdk.state.other.short_token_balance),
     );
+    n += what_if_contents(w, mi, &prog, mint_supply(w, &mk.market_token), obs);
     n + 3
+}
+
+/// "Any market account bytes": the same two-decoder comparison on altered copies of the account — the
+/// closed flag toggled, config flags redrawn, config values (incl. the closed-market ones) rewritten —
+/// produced by the program's own public setters on a copy and handed to the SDK as raw bytes. The
+/// alterations are a pure function of the account contents (PRNG keyed by a hash of the bytes).
+fn what_if_contents(w: &World, mi: usize, prog: &Market, supply: u64, obs: &mut Obs) -> u64 {
+    use gmsol_store::states::market::config::{MarketConfigFlag, MarketConfigKey};
+    use gmsol_utils::market::MarketFlag;
+    use strum::IntoEnumIterator;
+    let _ = w;
+    let mut h: u64 = 0xcbf29ce484222325;
+    for b in bytemuck::bytes_of(prog) {
+        h = (h ^ *b as u64).wrapping_mul(0x100000001b3);
+    }
+    let mut r = simcore::Rng::derive(h, mi as u64, "c40_what_if");
+    let mut n = 0u64;
+    for variant in 0..2u32 {
+        let mut pc = *prog;
+        let closed = if variant == 0 { !prog.is_closed() } else { r.bool() };
+        pc.set_flag(MarketFlag::Closed, closed);
+        for f in MarketConfigFlag::iter() {
+            if variant == 1 && r.chance(1, 2) {
+                let _ = pc.set_config_flag(&f.to_string(), r.bool());
+            }
+        }
+        if variant == 1 {
+            for key in MarketConfigKey::iter() {
+                if r.chance(1, 5) {
+                    if let Ok(v) = pc.get_config_mut(&key.to_string()) {
+                        *v = *r.pick(&[0u128, 1, UNIT / 1000, UNIT / 100, UNIT / 2, UNIT, 3 * UNIT]) + r.range(0, 1000) as u128;
+                    }
+                }
+            }
+        }
+        let sdk_raw: SdkMarket = bytemuck::pod_read_unaligned(bytemuck::bytes_of(&pc));
+        let sdk = MarketModel::from_parts(Arc::new(sdk_raw), supply);
+        let a = view(&pc);
+        let b = view(&sdk);
+        for ((ka, va), (kb, vb)) in a.iter().zip(b.iter()) {
+            n += 1;
+            obs.require(ka == kb && va == vb, "C40", "decoding_differs", || format!("field={ka},what_if=true,closed={closed}"), || format!("market {mi} (altered copy, closed={closed}, variant {variant}): {ka} program={va} sdk[{kb}]={vb}"));
+            if obs.should_stop() {
+                return n;
+            }
+        }
+        obs.probe(if closed { "c40_what_if_closed_compared" } else { "c40_what_if_open_compared" });
+    }
+    n
 }
 
 /// The prices the program's oracle accepts for a market right now (obtained by running the real
